@@ -27,7 +27,7 @@ class Payload:
         return f'Payload({self.tid})'
 
 
-class TwoArg(Exception):
+class TwoArg(LookupError):
     """An ordinary user exception: two constructor arguments, one message handed to Exception.  It pickles (by reference to the class
     and `args`), but unpickling calls TwoArg('3-boom') and fails - the commonest way an exception cannot cross a process boundary."""
 
